@@ -166,6 +166,17 @@ func cfgRule(kind, sel string) (*annotations.HttpRule, string, string, string) {
 		r.AdditionalBindings = []*annotations.HttpRule{{Pattern: &annotations.HttpRule_Get{Get: "/cfg/x"}}}
 	case "blank-path":
 		get("")
+	case "custom-any-then-get":
+		// a custom pattern for every HTTP method and, on the same path, a GET binding of its own:
+		// the exact method wins, the wildcard takes the rest (probed with GET)
+		r.Pattern = &annotations.HttpRule_Custom{Custom: &annotations.CustomHttpPattern{Kind: "*", Path: "/cfg/w"}}
+		r.Body = "*"
+		r.AdditionalBindings = []*annotations.HttpRule{{Pattern: &annotations.HttpRule_Get{Get: "/cfg/w"}}}
+		return r, "GET", "/cfg/w", ""
+	case "get-then-custom-any":
+		get("/cfg/w")
+		r.AdditionalBindings = []*annotations.HttpRule{{Pattern: &annotations.HttpRule_Custom{Custom: &annotations.CustomHttpPattern{Kind: "*", Path: "/cfg/w"}}, Body: "*"}}
+		return r, "DELETE", "/cfg/w", `{"name":"n"}`
 	}
 	return r, "", "", ""
 }
